@@ -197,13 +197,15 @@ pub fn c04_verdict(data: &[u8]) -> Verdict {
 /// occur in free text, so the protected map is right by construction.
 pub fn decode_segline(data: &[u8]) -> c12::SegLine {
     use c12::Seg;
+    // free text: printable ASCII, spaces and tabs (the blanks the property speaks of)
+    let free_char = |c: &char| *c == ' ' || *c == '\t' || c.is_ascii_graphic();
     let mut segs = vec![];
     let recs: Vec<&[u8]> = data.split(|b| *b == 0).filter(|r| !r.is_empty()).take(12).collect();
     let n = recs.len();
     for (i, r) in recs.into_iter().enumerate() {
         let text: String = String::from_utf8_lossy(&r[1..]).chars().filter(|c| *c != '"' && *c != '\n' && *c != '\u{fffd}').collect();
         match r[0] % 8 {
-            0..=4 => segs.push(Seg::Free(text.chars().filter(|c| c.is_ascii()).collect())),
+            0..=4 => segs.push(Seg::Free(text.chars().filter(free_char).collect())),
             5 | 6 => {
                 segs.push(Seg::Free("\"".into()));
                 segs.push(Seg::Prot(text));
@@ -214,7 +216,7 @@ pub fn decode_segline(data: &[u8]) -> c12::SegLine {
                     segs.push(Seg::Free("REM".into()));
                     segs.push(Seg::Prot(text));
                 } else {
-                    segs.push(Seg::Free(text.chars().filter(|c| c.is_ascii()).collect()));
+                    segs.push(Seg::Free(text.chars().filter(free_char).collect()));
                 }
             }
         }
